@@ -263,6 +263,9 @@ func init() {
 			if pv, ok := ex.pins[fmt.Sprintf("%s#%d", label, seq)]; ok {
 				return IntV{ex.tf.Const(64, pv%n.val)}
 			}
+			if pv, ok := ex.eng.pinChoices[fmt.Sprintf("%s#%d", label, seq)]; ok {
+				return IntV{ex.tf.Const(64, pv%n.val)}
+			}
 			c := ex.choice(int(n.val))
 			ex.eng.noteChoice(fmt.Sprintf("%s#%d", label, seq), c, ex)
 			return IntV{ex.tf.Const(64, uint64(c))}
@@ -371,6 +374,10 @@ func init() {
 		"internal/bytealg.IndexByte":       intrIndexByte,
 		"internal/bytealg.IndexByteString": intrIndexByte,
 		"strings.IndexByte":                intrIndexByte,
+		"internal/bytealg.CountString": intrCountByte,
+		"internal/bytealg.Count":       intrCountByte,
+		"strings.ToLower":              intrCaseMap(false),
+		"strings.ToUpper":              intrCaseMap(true),
 		"internal/bytealg.MakeNoZero": func(ex *Exec, fn *ssa.Function, args []Value) Value {
 			n := args[0].(IntV).T
 			return ex.makeSlice(types.Typ[types.Uint8], n, n)
@@ -749,7 +756,7 @@ func intrIndexByte(ex *Exec, fn *ssa.Function, args []Value) Value {
 	n := ex.strLen(s)
 	ub, ok := ex.upperBound(n)
 	if !ok {
-		panic(unsupported{"IndexByte on a buffer without length bound"})
+		ub = ex.concretize(n, "length of the buffer searched by IndexByte")
 	}
 	res := tf.Const(64, ^uint64(0))
 	for k := int64(ub) - 1; k >= 0; k-- {
@@ -786,4 +793,59 @@ func intrUTF16BE(ex *Exec, fn *ssa.Function, args []Value) Value {
 		ex.bytesWrite(tmp, tf.Const(64, 2*k+1), b)
 	}
 	return TupleV{StrV{Mem: tmp.freeze(), Off: tf.Const(64, 0), N: tmp.n}, IfaceV{}}
+}
+
+func intrCountByte(ex *Exec, fn *ssa.Function, args []Value) Value {
+	tf := ex.tf
+	s := ex.asStr(args[0])
+	c := args[1].(IntV).T
+	n := ex.strLen(s)
+	ub, ok := ex.upperBound(n)
+	if !ok {
+		ub = ex.concretize(n, "length of counted string")
+	}
+	res := tf.Const(64, 0)
+	for k := uint64(0); k < ub; k++ {
+		kt := tf.Const(64, k)
+		hit := tf.BAnd(tf.Ult(kt, n), tf.Eq(ex.strByte(s, kt), c))
+		res = tf.Add(res, tf.Ite(hit, tf.Const(64, 1), tf.Const(64, 0)))
+	}
+	return IntV{res}
+}
+
+// strings.ToLower / ToUpper on a symbolic string: exact for ASCII content; if some byte is not
+// ASCII the result is an unconstrained string (case mapping of multi-byte and invalid sequences
+// is not modelled - an over-approximation, listed in the evidence).
+func intrCaseMap(upper bool) intrinsic {
+	return func(ex *Exec, fn *ssa.Function, args []Value) Value {
+		tf := ex.tf
+		s := args[0].(StrV)
+		if nat := nativeCall(ex, fn, args); nat != nil {
+			return nat.v
+		}
+		n := ex.concretize(ex.strLen(s), "length of case-mapped string")
+		bytesOf := make([]*Term, n)
+		var ascii []*Term
+		for k := range bytesOf {
+			bytesOf[k] = ex.strByte(s, tf.Const(64, uint64(k)))
+			ascii = append(ascii, tf.Ult(bytesOf[k], tf.Const(8, 0x80)))
+		}
+		if ex.branch(tf.BAnd(ascii...)) {
+			tmp := ex.newBytes(tf.Const(64, n), zeroBase)
+			for k, b := range bytesOf {
+				lo, hi, d := uint64('A'), uint64('Z'), uint64(32)
+				if upper {
+					lo, hi, d = 'a', 'z', ^uint64(31) // -32
+				}
+				in := tf.BAnd(tf.Ule(tf.Const(8, lo), b), tf.Ule(b, tf.Const(8, hi)))
+				ex.bytesWrite(tmp, tf.Const(64, uint64(k)), tf.Ite(in, tf.Add(b, tf.Const(8, d)), b))
+			}
+			return ex.normStr(StrV{Mem: tmp.freeze(), Off: tf.Const(64, 0), N: tf.Const(64, n)})
+		}
+		ex.timeSeq++
+		name := fmt.Sprintf("casemap#%d", ex.timeSeq)
+		ln := ex.tf.Var(name+".len", 64)
+		ex.addPC(tf.Ule(ln, tf.Const(64, 3*n)))
+		return StrV{Mem: newLayer(layer{kind: lArr, whole: true, arr: name}), Off: tf.Const(64, 0), N: ln}
+	}
 }
